@@ -441,7 +441,7 @@ def contracts(verify_callees=True):
 
     cs.append(Contract(F, 'fast_SIR',
         cases=fs_cases(), axioms=axioms_for, requires=fs_requires,
-        sites={('call:fast_nonMarkov_SIR', 0): fs_delegate},
+        sites={('call:fast_nonMarkov_SIR', 0): fs_delegate, ('call:fast_nonMarkov_SIR', 1): fs_delegate},
         sites_strict=('random.sample', 'random.random', 'random.choice'),
         ensures=fs_post))
     return cs
